@@ -301,6 +301,16 @@ def handle (line : String) : String :=
       let rep := scanReply '1' nfx roots sts dets
       if rep = "bad-op" then rep else rep ++ " gerr=- sgate=-"
     else "bad-op"
+  -- idxmut + a scan case with >= 2 detectors, none cancelling: the FIRST detector overwrites every slice the index handed to it. Model:
+  -- the index is a value (`idx`). SPECIFICATION (sagain): the LAST detector still sees the filter of the extracted packages
+  | ["idxmut", nfx, roots, sts, dets] =>
+    if (listOf dets "|").length < 2 || (listOf dets "|").any (·.endsWith "~") then "bad-op" else
+    let rep := scanReply '1' nfx roots sts dets
+    if rep = "bad-op" then rep else
+    let field := fun (k : String) => (((rep.splitOn " ").find? (·.startsWith (k ++ "="))).map fun kv => String.ofList (kv.toList.drop (k.length + 1))).getD "?"
+    s!"idx={field "idx"} sagain={field "sidx"}"
+  -- nilarg: optional arguments left nil at the public entry points. SPECIFICATION: the call works as if the optional part were absent
+  | ["nilarg", e] => if ["detrun", "detrun0", "detroot", "scan", "scancaps", "fsrun", "index", "valadv"].contains e then "snres=ok" else "bad-op"
   | ["gate", flags, nfx, roots, sts, dets] =>
     match flags.toList with
     | [e, v, r, p] =>
